@@ -143,4 +143,83 @@ theorem bank_size_fits_usize (d : Decls) (defs : Defs) (b : BankdefAst) (bank : 
   repeat' (split at h <;> try (cases h; done))
   all_goals (injection h with h; subst h; simp only at hs; first | (cases hs; done) | (injection hs with hs; subst hs; assumption))
 
+/-! ### positions are machine words that never wrap (finding F61, repaired) -/
+
+/-- the position of the current bank, read back after it was set (the bank exists) -/
+theorem pos_setPos (s : IterSt) (p : Nat) (h : s.bank < s.cur.length) : (s.setPos p).pos = p := by
+  simp [IterSt.pos, IterSt.setPos, List.getD_eq_getElem?_getD, h]
+
+/-- **adding to a position either fits a machine word or is an error** - it is never taken modulo 2^64 -/
+theorem addPos_exact (s s' : IterSt) (n : Nat) (h : addPos s n = .ok s') :
+    s' = s.setPos (s.pos + n) ∧ s.pos + n < 2 ^ 64 := by
+  unfold addPos at h
+  split at h
+  · rename_i hlt; injection h with h; exact ⟨h.symm, hlt⟩
+  · cases h
+
+theorem addPos_rejects (s : IterSt) (n : Nat) (h : 2 ^ 64 ≤ s.pos + n) : addPos s n = .error .valueRange := by
+  unfold addPos; rw [if_neg (by omega)]
+
+/-- **an instruction, a data element or a reservation moves the position by exactly its size**, and the new
+    position fits a machine word; where it would not, the step is the error "value is out of supported range" -/
+theorem advance_emit_exact (banks : List Bank) (s s' : IterSt) (bits : List Bool) (h : advance banks s (.emit bits) = .ok s') :
+    s' = s.setPos (s.pos + bits.length) ∧ s.pos + bits.length < 2 ^ 64 := addPos_exact s s' _ h
+
+theorem advance_res_exact (banks : List Bank) (s s' : IterSt) (n : Nat) (h : advance banks s (.res n) = .ok s') :
+    s' = s.setPos (s.pos + n) ∧ s.pos + n < 2 ^ 64 := addPos_exact s s' _ h
+
+theorem advance_overflow_is_an_error (banks : List Bank) (s : IterSt) (n : Nat) (h : 2 ^ 64 ≤ s.pos + n) :
+    advance banks s (.res n) = .error .valueRange ∧
+    ∀ bits : List Bool, bits.length = n → advance banks s (.emit bits) = .error .valueRange :=
+  ⟨addPos_rejects s n h, fun bits hb => by subst hb; exact addPos_rejects s _ h⟩
+
+/-- an alignment moves the position by the padding `bits_until_alignment` computed, or is an error -/
+theorem advance_align_exact (banks : List Bank) (s s' : IterSt) (a : Nat) (h : advance banks s (.align a) = .ok s') :
+    ∃ b k, banks[s.bank]? = some b ∧ bitsUntilAlignment (b.addrStart * b.addrUnit + s.pos) a = .ok k ∧
+      s' = s.setPos (s.pos + k) ∧ s.pos + k < 2 ^ 64 := by
+  simp only [advance] at h
+  cases hb : banks[s.bank]? with
+  | none => rw [hb] at h; cases h
+  | some b =>
+    rw [hb] at h
+    simp only at h
+    cases hk : bitsUntilAlignment (b.addrStart * b.addrUnit + s.pos) a with
+    | error e => rw [hk] at h; cases h
+    | ok k =>
+      rw [hk] at h
+      exact ⟨b, k, rfl, hk, addPos_exact s s' k h⟩
+
+/-- **a reservation whose size in bits does not fit a machine word is an error** (`#res n` in a bank whose
+    address unit is huge): the product is never taken modulo 2^64 -/
+theorem reserve_size_fits (st : Static) (defs defs' : Defs) (ctx : RCtx) (ref : Nat) (e : Expr) (b : Bool) (rep : List String)
+    (h : resolveRes st defs ctx ref e = .ok (defs', b, rep)) : defs'.res.getD ref 0 < USIZE_MAX1 ∨ defs'.res.length ≤ ref := by
+  unfold resolveRes at h
+  cases hr : resolverEval st defs ctx {} e with
+  | error m => rw [hr] at h; cases h
+  | ok x =>
+    obtain ⟨v, c⟩ := x
+    rw [hr] at h
+    simp only at h
+    split at h
+    · cases h
+    · rename_i n hn
+      split at h
+      · cases h
+      rename_i hlt
+      by_cases hlen : ref < defs.res.length
+      · left
+        have hd : defs' = { defs with res := defs.res.set ref (n * (defs.banks.getD ctx.bank defaultBank).addrUnit) } := by
+          split at h <;> (injection h with h; injection h with h1 _; exact h1.symm)
+        subst hd
+        simp only [List.getD_eq_getElem?_getD, List.getElem?_set, hlen, if_true]
+        simpa using hlt
+      · right
+        have hd : defs' = { defs with res := defs.res.set ref (n * (defs.banks.getD ctx.bank defaultBank).addrUnit) } := by
+          split at h <;> (injection h with h; injection h with h1 _; exact h1.symm)
+        subst hd
+        simp only [List.length_set]; omega
+
+example : addPos ⟨0, [18446744073709551615]⟩ 8 = .error .valueRange := addPos_rejects _ _ (by decide)
+example : (addPos ⟨0, [8]⟩ 8).toOption.map (·.pos) = some 16 := by decide
+
 end Casm.C19
